@@ -1009,6 +1009,14 @@ fn filters(r: &mut Runner, t: bool) {
             filter_case!(r, "BitFieldVec<usize>,[u64;2],FuseLge3Shards", n, &c, 10, n == 1000, W = usize, boxed = false, S = [u64; 2], E = FuseLge3Shards);
         }
     }
+    // offline store with fewer / as many / more buckets than shards (the on-disk splitter and merger), two shards
+    for (lb, h) in [(Some(0), Hint::Absent), (Some(1), Hint::Absent), (Some(3), Hint::Absent), (None, Hint::Exact), (None, Hint::Half)] {
+        let c = Cfg { offline: true, log2_buckets: lb, hint: h, ..d.clone() };
+        filter_case!(r, "Box<[u8]>,[u64;2],FuseLge3Shards", 150_000, &c, 8, false, W = u8, boxed = true, S = [u64; 2], E = FuseLge3Shards);
+        if lb != Some(3) {
+            filter_case!(r, "BitFieldVec<usize>,[u64;2],FuseLge3FullSigs", 150_000, &c, 9, false, W = usize, boxed = false, S = [u64; 2], E = FuseLge3FullSigs);
+        }
+    }
     // large filters: false-positive counting at 100 000 keys and a multi-shard build
     let big: &[usize] = if t { &[100_000, 150_000, 400_001, 10_000_001, 45_000_000] } else { &[100_000] };
     for &n in big {
